@@ -37,7 +37,7 @@ SPEC = {
     "oracle": "reference transition function of the documented setter semantics (docstring of CovModel: list of length scales redefines anis, "
     "too few anis are front-filled with 1, too few angles back-filled with 0, TPL variance follows intensity, lat-lon keeps space isotropic "
     "and never touches the time ratio, temporal models zero the space-time angles) and a freshly constructed model with the resulting values",
-    "outside": ["state after a rejected assignment (no rollback is documented)", "histories longer than the bound", "bounds given as symbolic values"],
+    "outside": ["a truncated-power-law variance leaving user-set bounds through rescale= (derived change)", "state after a rejected assignment (no rollback is documented)", "histories longer than the bound", "bounds given as symbolic values"],
     "assumptions": ["floats read as reals", "initial state is any constructible model (parameters inside default bounds)"],
 }
 
@@ -620,7 +620,11 @@ def job_history(cfgname, seq, tier):
         try:
             m2 = construct(gs, cfg2, v2)
             if ref.bounds["var"][1] is not None:
-                m2.set_arg_bounds(var=[ref.bounds["var"][0], ref.bounds["var"][1], "cc"])
+                # (a truncated-power-law variance can leave user-set bounds through rescale= -- a derived change, no assignment
+                #  is involved and none is rejected; then the bounds are not re-applied to the fresh model: outside the claim)
+                inb_ = cz3(in_bounds(rp["var"], ref.bounds["var"]))
+                if isinstance(inb_, bool) and inb_ or (not isinstance(inb_, bool) and bool(sym.SymBool(inb_))):
+                    m2.set_arg_bounds(var=[ref.bounds["var"][0], ref.bounds["var"][1], "cc"])
             st2 = public_state(m2)
         except ValueError as e:
             st2 = ("fresh construction rejected", str(e)[:80])
